@@ -27,6 +27,10 @@ type c11case struct {
 	Full      bool     `json:"full"`
 	Circular  bool     `json:"circular"`
 	Mode      string   `json:"mode"` // sim | slice | worker
+	// optional, per template (absent or null = none): Phred scores, annotations set on the template before the run
+	// (the value of "pairing_mismatches" is installed as a map[string]int, as obipairing writes it)
+	Quals  [][]int                  `json:"quals,omitempty"`
+	Annots []map[string]interface{} `json:"annots,omitempty"`
 }
 
 type c11amp struct {
@@ -39,7 +43,15 @@ type c11amp struct {
 	Fp  string `json:"fp"`
 	Rp  string `json:"rp"`
 	Id  string `json:"id"`
+	// only when the case carries quals / annots: Phred scores of the amplicon (null: none), its pairing_mismatches
+	// (null: none) and every other annotation that is not written by _Pcr itself, rendered by fmt.Sprint
+	Qual  []int             `json:"qual,omitempty"`
+	Pm    map[string]int    `json:"pm,omitempty"`
+	Extra map[string]string `json:"extra,omitempty"`
 }
+
+var c11own = map[string]bool{"tix": true, "direction": true, "forward_match": true, "forward_error": true, "reverse_match": true,
+	"reverse_error": true, "forward_primer": true, "reverse_primer": true, "pairing_mismatches": true}
 
 type c11obs struct {
 	Kind string     `json:"kind"` // ok | fatal | panic
@@ -91,6 +103,28 @@ func c11run(c c11case) (o c11obs) {
 	seqs := make(obiseq.BioSequenceSlice, len(c.Templates))
 	for i, t := range c.Templates {
 		s := obiseq.NewBioSequence(fmt.Sprintf("t%d", i), []byte(t), "")
+		if i < len(c.Quals) && c.Quals[i] != nil {
+			q := make([]byte, len(c.Quals[i]))
+			for k, v := range c.Quals[i] {
+				q[k] = byte(v)
+			}
+			s.SetQualities(q)
+		}
+		if i < len(c.Annots) {
+			for k, v := range c.Annots[i] {
+				if m, ok := v.(map[string]interface{}); ok && k == "pairing_mismatches" {
+					pm := make(map[string]int, len(m))
+					for mk, mv := range m {
+						pm[mk] = c11int(mv)
+					}
+					s.SetAttribute(k, pm)
+				} else if f, ok := v.(float64); ok && f == float64(int(f)) {
+					s.SetAttribute(k, int(f))
+				} else {
+					s.SetAttribute(k, v)
+				}
+			}
+		}
 		s.SetAttribute("tix", i)
 		seqs[i] = s
 	}
@@ -120,7 +154,28 @@ func c11run(c c11case) (o c11obs) {
 		if tix < 0 || tix >= len(amps) {
 			return c11obs{Kind: "panic", Err: "amplicon without template index"}
 		}
+		var qual []int
+		var pm map[string]int
+		var extra map[string]string
+		if len(c.Quals) > 0 || len(c.Annots) > 0 {
+			if a.HasQualities() {
+				qual = make([]int, 0, a.Len())
+				for _, v := range a.Qualities() {
+					qual = append(qual, int(v))
+				}
+			}
+			if m, ok := a.GetIntMap("pairing_mismatches"); ok {
+				pm = m
+			}
+			extra = map[string]string{}
+			for k, v := range an {
+				if !c11own[k] {
+					extra[k] = fmt.Sprint(v)
+				}
+			}
+		}
 		amps[tix] = append(amps[tix], c11amp{
+			Qual: qual, Pm: pm, Extra: extra,
 			Seq: a.String(),
 			Dir: c11str(an["direction"]),
 			Fm:  c11str(an["forward_match"]),
